@@ -110,13 +110,19 @@ def run_cli_inprocess(argv, stdin_text):
     return status, out, err, exc
 
 
+_SUB_CALLS = [0]
+
+
 def run_cli_subprocess(argv, stdin_text, repo, c_locale=False):
     env = dict(os.environ)
     env["PYTHONPATH"] = repo
     if c_locale:
         env.update({"LC_ALL": "C", "LANG": "C", "PYTHONUTF8": "0", "PYTHONCOERCECLOCALE": "0"})
         env.pop("PYTHONIOENCODING", None)
-    p = subprocess.run([sys.executable, "-B", "-m", "jsonpath"] + argv, input=(stdin_text or "").encode("utf-8"), capture_output=True, timeout=60, env=env, cwd=repo)
+    # (the child interpreter runs, in turn, as it is, with asserts stripped (-O), and with docstrings stripped too (-OO))
+    _SUB_CALLS[0] += 1
+    flags = [[], ["-O"], ["-OO"]][_SUB_CALLS[0] % 3]
+    p = subprocess.run([sys.executable, "-B"] + flags + ["-m", "jsonpath"] + argv, input=(stdin_text or "").encode("utf-8"), capture_output=True, timeout=60, env=env, cwd=repo)
     err = p.stderr.decode("utf-8", "replace")
     return p.returncode, p.stdout.decode("utf-8", "replace"), err, ("Traceback" if "Traceback (most recent call last)" in err else None)
 
